@@ -148,6 +148,22 @@ func ruleV3(c *Ctx) {
 			c.check(okv && ve == end, "V3", "uri-in-value:"+key, t.RetPos, "an exit that closes the URI at "+end+" extends V to the same end")
 		}
 	}
+	// ... and wherever the URI is closed before the value ends (the '>' of <uri>, the blank after a bare URI): the
+	// same transition extends the whole value to the URI's end, or one past it to take in the closing bracket
+	m := 0
+	for _, t := range r.grouped(r.trans) {
+		if t.Exit == "return" {
+			continue
+		}
+		if us, ok := argOf(t, "URI.Set("); ok {
+			m++
+			end := us[strings.LastIndex(us, ",")+1:]
+			ve, okv := argOf(t, "V.Extend(")
+			key := r.name(t.From) + ":" + t.Bytes.String() + ":" + strings.Join(t.Conds, "&")
+			c.check(okv && (ve == end || ve == end+"+1"), "V3", "uri-in-value-open:"+key, t.AtPos, "a transition that closes the URI at "+end+" extends V to the same end or one past it (closing bracket); V.Extend("+ve+")")
+		}
+	}
+	c.check(m >= 2, "V3", "uri-closings", token.NoPos, fmt.Sprintf("%d non-exit transitions that close the URI checked (frozen minimum 2)", m))
 	c.check(n >= 15, "V3", "exits", token.NoPos, fmt.Sprintf("%d extent pairs on completing exits checked (frozen minimum 15)", n))
 	// the tag lies inside the parameters: Tag.Set only in setFromParamVal with (vstart, vend)
 	if fd := c.Decls["setFromParamVal"]; fd != nil {
